@@ -120,7 +120,7 @@ def _line_nodes_formula(a, values):
     if hit_stop:
         # C13: every node lies inside the requested [start, stop]. EXACT comparisons (no tolerance when the clause is
         # evaluated on native floats): a node one ulp beyond the bound is outside the region for verde.inside.
-        parts["nodes_lie_within_start_and_stop"] = Forall((size,), lambda i: and_(start <= values.at(i), values.at(i) <= stop))
+        parts["nodes_lie_within_start_and_stop"] = Imp(stop >= start, Forall((size,), lambda i: and_(start <= values.at(i), values.at(i) <= stop)))
         if not a.pixel_register:
             last = values.at(size - 1)
             parts["bounds_are_hit_exactly"] = and_(values.at(0) == start, implies(size >= 2, last == stop))
